@@ -117,9 +117,10 @@ const (
 	opExecDump
 	opGetOnly
 	opExecRecursive
+	opExecComputed
 )
 
-var opNames = []string{"GetTemplate+Execute", "Parse+Execute", "AddGlobal", "LookupGlobal", "Execute(globals)", "loader.Set", "loader.Delete", "loader.Exists", "loader.Open", "Execute(volatile)", "Execute(dump)", "GetTemplate", "Execute(recursive include)"}
+var opNames = []string{"GetTemplate+Execute", "Parse+Execute", "AddGlobal", "LookupGlobal", "Execute(globals)", "loader.Set", "loader.Delete", "loader.Exists", "loader.Open", "Execute(volatile)", "Execute(dump)", "GetTemplate", "Execute(recursive include)", "Execute(include computed from a variable)"}
 
 type op struct {
 	kind  opKind
@@ -257,6 +258,8 @@ func RunC11(env *sim.Env) {
 	w := &world{files: gw.Files, stable: gw.Mains, alone: map[string]string{}, parseSrc: map[string]string{}}
 	w.files[globalsTmpl] = `<g0={{isset(g0) ? g0 : "none"}}><g1={{isset(g1) ? g1 : "none"}}><gc={{gc}}>`
 	w.files[dumpTmpl] = `{{x := 1}}{{dump()}}`
+	w.files["/zcomp.jet"] = `<{{include nm}}>`
+	w.files["/zca.jet"], w.files["/zcb.jet"] = "[comp-a]", "[comp-b]"
 	w.files[recTmpl] = `[{{.}}{{if . > 0}}{{include "/zrec.jet" dec(.)}}{{end}}]`
 	w.files["/v0.jet"] = "[v0#1]"
 	w.files["/v1.jet"] = "[v1#1]{{include \"/v0.jet\"}}"
@@ -368,7 +371,7 @@ func RunC11(env *sim.Env) {
 		n := t.Range(2, 12)
 		for i := 0; i < n; i++ {
 			var o op
-			switch t.Weighted(6, 2, 3, 2, 3, 2, 1, 1, 1, 2, 1, 2, 2, 1) {
+			switch t.Weighted(6, 2, 3, 2, 3, 2, 1, 1, 1, 2, 1, 2, 2, 1, 2) {
 			case 0:
 				k := stableKeys[t.Choose(len(stableKeys))]
 				parts := strings.Split(k, "|")
@@ -407,6 +410,9 @@ func RunC11(env *sim.Env) {
 				o = op{kind: opExecVolatile, tmpl: fmt.Sprintf("/v%d.jet", t.Choose(2))}
 			case 10:
 				o = op{kind: opExecDump, tmpl: dumpTmpl}
+			case 14:
+				// one include statement, executed by several clients at once with different names
+				o = op{kind: opExecComputed, tmpl: "/zcomp.jet", key: []string{"/zca.jet", "/zcb.jet"}[t.Choose(2)]}
 			case 12:
 				o = op{kind: opExecRecursive, tmpl: recTmpl}
 			case 13:
@@ -508,6 +514,11 @@ func RunC11(env *sim.Env) {
 			if got != want {
 				env.Violate("serial-results", "serial-mismatch:"+opNames[r.op.kind], "client %d: %s (data %d) differs from its alone-run.\nalone:      %s\nconcurrent: %s\nhistory: %s", r.client, r.op, r.op.data, sim.Q(strings.ReplaceAll(want, "\x00", " | err=")), sim.Q(strings.ReplaceAll(got, "\x00", " | err=")), strings.Join(hist, " "))
 			}
+		case opExecComputed:
+			want := map[string]string{"/zca.jet": "<[comp-a]>", "/zcb.jet": "<[comp-b]>"}[r.op.key]
+			if r.out != want || r.err != "" {
+				env.Violate("serial-results", "serial-mismatch:"+opNames[r.op.kind], "client %d: {{include nm}} with nm=%q rendered %s (error %q); alone it renders %s\nhistory: %s", r.client, r.op.key, sim.Q(r.out), r.err, sim.Q(want), strings.Join(hist, " "))
+			}
 		case opExecRecursive:
 			if got := norm(r.out) + "\x00" + norm(r.err); got != recExpected(recDepth)+"\x00" {
 				env.Violate("serial-results", "serial-mismatch:"+opNames[r.op.kind], "client %d: a template that includes itself %d levels deep rendered %s (error %q); alone it renders %s\nhistory: %s", r.client, recDepth, sim.Q(r.out), r.err, sim.Q(recExpected(recDepth)), strings.Join(hist, " "))
@@ -585,6 +596,21 @@ func runOp(s *simrt.Sched, set *jet.Set, mem *jet.InMemLoader, w *world, c int, 
 		}
 	}
 	switch o.kind {
+	case opExecComputed:
+		guard(func() {
+			tm, err := set.GetTemplate(o.tmpl)
+			if err != nil {
+				r.err = "GetTemplate: " + err.Error()
+				return
+			}
+			wr := &yieldWriter{s: s}
+			vm := vars(w.datas[0], nil)
+			vm.Set("nm", o.key)
+			if err := tm.Execute(wr, vm, nil); err != nil {
+				r.err = err.Error()
+			}
+			r.out = string(wr.buf)
+		})
 	case opExecRecursive:
 		guard(func() {
 			tm, err := set.GetTemplate(o.tmpl)
